@@ -72,7 +72,8 @@ def is_literal(e):
 def bounded(tier, seed):
     from rtc.exprgen import ExprGen
     from unified_planning.model.walkers import Dnf, Nnf
-    from unified_planning.shortcuts import LE, LT, Int, And, Or, Not
+    from unified_planning.shortcuts import LE, LT, Int, And, Or, Not, Plus, Equals
+    from spec.ev import ev as _ev, UNDEF as _UNDEF
     n = 600 if tier == "quick" else 12000
     g = ExprGen(seed, big=False)
     env = g.pr.environment
@@ -84,8 +85,9 @@ def bounded(tier, seed):
         for i in range(n):
             try:
                 e = g.boolean(3, quant=False)
-                if i % 3 == 0:      # force constant comparisons into conjunctions / disjunctions
-                    c1 = rng.choice([LE(Int(1), Int(2)), LT(Int(2), Int(1)), LE(Int(2), Int(3))])
+                if i % 3 == 0:      # force constant and REFLEXIVE comparisons (same term on both sides) into conjunctions / disjunctions
+                    t = rng.choice([g.x(), g.y(), Plus(g.x(), g.z()), Plus(g.x(), 1)])
+                    c1 = rng.choice([LE(Int(1), Int(2)), LT(Int(2), Int(1)), LE(Int(2), Int(3)), LT(t, t), LE(t, t), Equals(t, t), Not(LT(t, t))])
                     e = rng.choice([And, Or])(e, c1, Not(g.boolean(1, quant=False)))
             except Exception:  # noqa
                 continue
@@ -115,6 +117,20 @@ def bounded(tier, seed):
                 if t0 != t2:
                     bad = f"DNF differs under {dict((str(k), v) for k, v in val.items())}"
                     break
+            if bad is None:
+                # independent of the library's simplifier (the truth tables above compare atoms modulo simplify()): the three expressions are
+                # evaluated by the reference evaluator under random interpretations of the fluents
+                for _ in range(4):
+                    lk = g.interp()
+                    try:
+                        v0, v1, v2 = _ev(e, lk, {}, g.pr), _ev(ne, lk, {}, g.pr), _ev(de, lk, {}, g.pr)
+                    except (ZeroDivisionError, KeyError):
+                        continue
+                    if _UNDEF in (v0, v1, v2):
+                        continue
+                    if v0 != v1 or v0 != v2:
+                        bad = f"{'NNF' if v0 != v1 else 'DNF'} evaluates differently under an interpretation of the fluents (expression {v0}, NNF {v1}, DNF {v2})"
+                        break
             if bad:
                 failures.append({"what": bad.split(" under")[0] + " from the expression", "concrete": {"expression": str(e)},
                                  "observed": {"nnf": str(ne), "dnf": str(de), "valuation": bad}})
